@@ -35,6 +35,7 @@ class Engine(CoreMixin, ExprMixin, CallMixin, LibMixin, StmtMixin, ReMixin):
                 self.bases[name] = tuple(b.id if isinstance(b, ast.Name) else getattr(b, "attr", "object") for b in node.bases)
         self.trivial = 0
         self.re_cache = {}
+        self.spec_heap_params = None
         self.scan_module_patterns()
         self.qcount = 0
         self.result_sv = None
@@ -200,13 +201,65 @@ class Engine(CoreMixin, ExprMixin, CallMixin, LibMixin, StmtMixin, ReMixin):
             val = mk_bool(self.truthy(val))
         elif con.returns:
             val = self.coerce(val, parse_type(con.returns), o.st, " (return value)")
+        self.apply_ghost_update(con.ghost_update, o.st, val)
         for name, expr in con.ensures.items():
             g, sk = self.goal_term(expr, self.post_env(o.st), o.st, old=self.entry_state, result=val)
             self.oblige(o.st, g, "%s#post.%s" % (self.short, name), "ensures", self.curline, expr, sk)
+        self.check_frame(o.st, "post")
+
+    def apply_ghost_update(self, updates, st, val=None):
+        """ghost code of the sidecar: simultaneous assignment of ghost variables at an exit"""
+        new = {}
+        for g, expr in updates.items():
+            cst = st.copy()
+            cst.env = dict(self.post_env(st))
+            cst.env.update(self.ghost_env(st))
+            saved = (self.old_state, self.result_sv)
+            self.old_state, self.result_sv = self.entry_state, val
+            try:
+                v = self.ev1(ast.parse(expr, mode="eval").body, cst)
+            finally:
+                self.old_state, self.result_sv = saved
+            self.spec_mode += 1
+            try:
+                new[g] = self.coerce(v, parse_type(C.GHOSTS[g]), st)
+            finally:
+                self.spec_mode -= 1
+        st.env.update(new)
+
+    def check_frame(self, st, where):
+        """every heap field written must be covered by the modifies clause"""
+        con = self.contract
+        whole = {m[2:] for m in con.modifies if m.startswith("*.")}
+        at = {}
+        for m in con.modifies:
+            if "." in m and not m.startswith("*."):
+                p, f = m.split(".", 1)
+                at.setdefault(f, []).append(p)
+        for f, cur in st.heap.items():
+            ent = self.entry_state.heap.get(f)
+            if ent is None:
+                ent = SV(cur.ty, [self.ctx.const("H0_%s_%d" % (f, k), a.sort) for k, a in enumerate(cur.ts)])
+            if all(a.s == b.s for a, b in zip(cur.ts, ent.ts)) or f in whole:
+                continue
+            goal = []
+            for a, b in zip(cur.ts, ent.ts):
+                allowed = b
+                for p in at.get(f, []):
+                    obj = self.params_env[p]
+                    if obj.ty.kind == "opt":
+                        obj = opt_inner(obj)
+                    allowed = smt.Store(allowed, obj.ts[0], smt.Select(a, obj.ts[0]))
+                for n in self.allocated:      # objects created by this call are outside the frame
+                    allowed = smt.Store(allowed, n, smt.Select(a, n))
+                goal.append(smt.Eq(a, allowed))
+            self.oblige(st, smt.And(*goal), "%s#frame.%s" % (self.short, f), "frame", self.curline,
+                        "field .%s changes only where the modifies clause allows" % f)
 
     def check_raise(self, o):
         con = self.contract
         ex = o.val
+        self.apply_ghost_update(con.ghost_update_exc, o.st)
         names = [n for n in con.raises]
         known = [n if n != "*" else "BaseException" for n in names]
         allowed = self.exc_matches(ex, known) if known else smt.FALSE
